@@ -46,7 +46,7 @@ RULE = ('Hypothesis-generated space specs (all builder kinds, discrete '
         'boolean feasible subsets, indexed families with gaps declared in '
         'shuffled order, conditional children under 1-3 parent values of '
         'bool/int/discrete/categorical parents, the same child name in '
-        'disjoint subspaces, hostile names) x 1-4 trials each (valid, with an '
+        'disjoint subspaces, hostile names) x 1-5 trials each (valid, with an '
         'undeclared name, with an inactive child, missing an indexed '
         'element). non-trivial = the space presents >= 2 external types, or '
         'has an indexed family, or a conditional child. distinct = SHA-1 of '
@@ -60,6 +60,11 @@ ASSUMPTIONS = [
     'python bools are only given for boolean parameters without children',
     'for a trial that lacks an element of an indexed family either the list '
     'of the present elements in index order or ValueError is accepted',
+    'the same parameter name is reused only by the first parameters of two '
+    'disjoint subspaces of one parent (their descendants have fresh names)',
+    'while KNOWN_WIRE_GRANDCHILD_LOST is set, configurations that go through '
+    'the wire are generated with conditional depth <= 2 (depth 3 only in '
+    'the pinned replays)',
 ]
 
 
@@ -70,13 +75,13 @@ def _case_strategy(modes, wire_modes):
   @st.composite
   def case(draw):
     mode = draw(st.sampled_from(modes))
-    depth = draw(st.sampled_from([1, 2, 2, 3, 3]))
+    depth = draw(st.sampled_from([1, 2, 2, 3, 3, 3]))
     capped = False
     if (mode in wire_modes and depth >= 3 and KNOWN_WIRE_GRANDCHILD_LOST):
       depth = 2
       capped = True
     spec = draw(gen.space(max_depth=depth))
-    trials = draw(st.lists(gen.trial(spec), min_size=1, max_size=4))
+    trials = draw(st.lists(gen.trial(spec), min_size=1, max_size=5))
     c = {'mode': mode, 'space': spec, 'trials': trials,
          'build': draw(st.sampled_from(['study_config', 'from_problem']))}
     if capped:
@@ -88,7 +93,7 @@ def _case_strategy(modes, wire_modes):
 def local_strategy():
   @st.composite
   def case(draw):
-    c = draw(_case_strategy(['direct', 'direct', 'proto_rt'], ['proto_rt']))
+    c = draw(_case_strategy(['direct', 'direct', 'direct', 'proto_rt'], ['proto_rt']))
     for t in c['trials']:
       t['proto'] = draw(st.sampled_from(['raw', 'pytrial']))
     return c
@@ -193,7 +198,11 @@ def _judge(out, site, spec, params, call, lost=()):
     return
   if exp[0] == 'error':
     if err is None:
-      out.violate('error/not_reported/%s' % exp[1],
+      kind = exp[1]
+      if kind == 'inactive' and all(
+          _shadowed_by_same_named_parent(spec, params, n) for n in exp[2]):
+        kind = 'inactive_child_of_same_named_parent'
+      out.violate('error/not_reported/%s' % kind,
                   '%s params=%r %s names=%r but returned %r' % (
                       site, params, exp[1], exp[2], got))
     return
@@ -269,6 +278,23 @@ def _judge(out, site, spec, params, call, lost=()):
       elif not gen.type_ok(et, g):
         out.violate('type/%s' % et, '%s %r stored %r read %r (%s)' % (
             site, k, ev, g, type(g).__name__))
+
+
+def _shadowed_by_same_named_parent(spec, params, name):
+  """Is `name` declared under a parent configuration P that is not active,
+  while another, active configuration carries P's name and the trial's value
+  for that name lies in the parent values `name` was declared under?"""
+  from harness import c17_gen as gen
+  active = gen.active_params(spec, params)
+  for par, _ in gen.walk(spec):
+    for ch in par.get('children', ()):
+      if not any(q['name'] == name for q in ch['params']):
+        continue
+      act = active.get(par['name'])
+      if (act is not None and act[0] is not par and par['name'] in params and
+          gen.child_matches(par, params[par['name']], ch['parent_values'])):
+        return True
+  return False
 
 
 def _present(et, ev):
